@@ -299,7 +299,13 @@ void point(int kind, const void* addr) {
     if (!g_active || !s || s->in_sched) return;
     s->in_sched = true;
     ++ST.steps; ++s->ord; ++s->phase_points; g_now += 10;
-    if (ST.steps >= P.hard_cap) { char b[1024]; describe_threads(b, sizeof b); fatal("hang", b); }
+    if (ST.steps >= P.hard_cap) {
+        // "hang-solo": every other client has finished all of its operations, so nothing can ever change the state the running thread is
+        // waiting for; its pending operation can never return although the sequential specification gives every operation a response.
+        // (A plain "hang" has several unfinished clients: they may be waiting for each other, which is a liveness matter.)
+        bool solo = (g_live_clients == 1 && s->is_client) || (g_live_clients == 0 && s->id == 0);
+        char b[1024]; describe_threads(b, sizeof b); fatal(solo ? "hang-solo" : "hang", b);
+    }
     if (ST.steps >= P.soft_cap && !g_fair) { g_fair = true; g_fair_left = 50; ST.soft_capped = true; g_stall_on = false; g_stall_done = true; }
     Ev& e = g_ev[ST.steps & (EVN - 1)]; e.step = ST.steps; e.tid = s->id; e.kind = kind; e.addr = addr;
     ST.trace_hash = (ST.trace_hash * 1099511628211ULL) ^ (uint64_t)(s->id * 32 + kind);
